@@ -46,6 +46,23 @@ def tail_chains(mod, N):
         chains.append(expand(f'result_{k}_1', k))
     return chains, used
 
+def step_equations(mod, tail_used):
+    """one equation per generated step definition of `mds_multiply`, proved by `rw [step]` so that it
+    carries a proof term: `simp` then rewrites with it instead of unfolding definitionally (the kernel
+    cannot re-check the definitional unfolding: it ends up evaluating arithmetic on 2^64 literals)"""
+    src = open(f'{L}/Winter/Gen/{mod}.lean').read()
+    defs = re.findall(r'^def (mds_multiply(?:\.s_\w+)?) ?((?:\([^)]*\) ?)*): ([^\n]*?) :=\n((?:  .*\n)+)', src, re.M)
+    thms, head = [], []
+    for name, binders, ty, body in defs:
+        if name.endswith('_ok'):
+            continue
+        args = ' '.join(re.findall(r'\((\w+) :', binders))
+        tn = 'eq_' + name.replace('.', '_')
+        thms.append(f'theorem {tn} {binders.strip()} :\n    Gen.{mod}.{name} {args} =\n      ({body.strip()}) := by\n  rw [Gen.{mod}.{name}]\n')
+        if name not in tail_used:
+            head.append(tn)
+    return '\n'.join(thms), head
+
 def gen(mod, rp, N):
     s = open(f'{L}/Winter/Gen/{rp}.lean').read()
     mds = eval(re.search(r'def MDS : List \(List Nat\) := (\[\[.*?\]\])', s).group(1))
@@ -56,7 +73,10 @@ def gen(mod, rp, N):
     mm = [f'Gen.{mod}.' + n for n in mm_all]
     mm_head = [f'Gen.{mod}.' + n for n in mm_all if n not in tail_used and not n.endswith('_ok')]
     folds = '\n\n'.join(f'theorem fold_{k} (h l : Nat) :\n    {chains[k]} = tailRed l h := rfl' for k in range(N))
-    fold_names = ', '.join(f'fold_{k}' for k in range(N))
+    fold_names = ', '.join(f"fold_{k}'" for k in range(N))
+    folds_pt = '\n\n'.join(f"theorem fold_{k}' (h l : Nat) :\n    {chains[k]} = tailRed l h := by\n  rw [fold_{k}]" for k in range(N))
+    step_thms, step_head = step_equations(mod, tail_used)
+    step_head_names = wrap(step_head)
     mm_head_names = wrap(mm_head)
     sv = [f's{i}' for i in range(N)]
     xv = [f'x{i}' for i in range(N)]
@@ -131,16 +151,27 @@ theorem freq_matVec ({svs} : Nat) {hyps} :
 {folds}
 
 /-- the plumbing of `mds_multiply` (which `let` feeds which): every output component is the
-    reduction tail of the two frequency-domain products of the low and high 32-bit limbs.
-    NOT proved in Lean: every route tried (simp unfolding, `rfl`, fold-then-rewrite) makes the
-    kernel unfold arithmetic on 2^64 literals past the identity wrappers `s_state_k_1` the translator
-    emits ("deep recursion"). The individual steps are proved (`fold_k`: each generated tail chain is
-    `tailRed`; `freq_*`: both products); this remaining statement is tied to the code by the
-    correspondence harness (`perm` / `round` ops, raw words compared bit for bit). -/
+    reduction tail of the two frequency-domain products of the low and high 32-bit limbs -/
 def mm_eq_tail_statement : Prop :=
   ∀ ({xs} : Nat),
     Gen.{mod}.mds_multiply {xs} =
       {tail_tup}
+
+/-! one equation per generated step, each carrying a proof term (see `gen_c11_mds.py`) -/
+section steps
+open Gen.{mod}
+
+{step_thms}
+end steps
+
+{folds_pt}
+
+/-- proved by rewriting with the step equations only: no definitional unfolding, so the kernel never
+    has to re-check a computation on 2^64 literals -/
+theorem mm_eq_tail : mm_eq_tail_statement := by
+  intro {xs}
+  simp only [{step_head_names},
+      {fold_names}]
 
 end WinterProofs.C11.{mod}
 '''
